@@ -90,6 +90,22 @@ class C29(Check):
                 setattr(devs[i], n, v)
         except Exception as e:      # noqa
             return Err(5, f"writing a device variable in the parent raised {type(e).__name__}: {e}")
+        # writes that struct refuses (a value outside the format) must leave the shared storage as it is
+        refused = 0
+        for i, n, v in case["parent"]:
+            f = dict((nm, fm) for j, nm, fm in allv if j == i)[n]
+            bad = None
+            if f in ("B", "H", "I", "Q", "b", "h", "i", "q", "l", "L", "N"):
+                bad = 1 << 70
+            elif isinstance(v, tuple) and all(isinstance(y, int) for y in v):
+                bad = tuple(v[:-1]) + (1 << 70,)
+            if bad is None or (i + len(n)) % 2:
+                continue
+            try:
+                setattr(devs[i], n, bad)
+                return Err(5, f"the out-of-range value {bad} was accepted for {n}:{f}")
+            except (struct.error, OverflowError):
+                refused += 1
         layout = {}
         for i, n, f in allv:
             layout[f"{i}.{n}"] = devs[i].__dict__.get(n)
@@ -212,7 +228,7 @@ class C29(Check):
     def rule(self):
         return ("1-3 device instances out of four classes (formats B H I Q b h i q x l L N f d ? the padded multi-member formats Bq and HHI and formats of odd sizes 3B 3H 5s =HB, one class derived from another and redefining a variable with a larger "
                 "format); 40% of the variables written in the parent, 40% in a spawned child process that received the pickled ProcessSyncGroup; the child "
-                "reads everything before and after its writes, the parent reads everything back; 15% of the variables are written on both sides; finally "
+                "reads everything before and after its writes, the parent reads everything back; 15% of the variables are written on both sides; half of the parent's variables also get a write that struct refuses, which must change nothing; finally "
                 "the parent assigns its first values again and a second spawned child and the parent read everything")
 
     def distribution(self, cases, observed):
